@@ -151,7 +151,7 @@ type scenario struct {
 }
 
 // runCase: returns false when the crash point lies beyond the end of the deployment
-func runCase(t *testing.T, r *vh.Run, sc scenario, k int, tags map[string]any) (emitted bool, total []int) {
+func runCase(t *testing.T, r *vh.Run, sc scenario, k int, tags map[string]any, addr ...*cw.Addr) (emitted bool, total []int) {
 	w := cw.New(t, cw.Options{NCPU: 8, Mem: 1 << 30})
 	defer w.Close()
 	if err := w.AddPod("p"); err != nil {
@@ -182,7 +182,11 @@ func runCase(t *testing.T, r *vh.Run, sc scenario, k int, tags map[string]any) (
 	before := observe(w, nodes, "", nil)
 
 	w.IC.Reset()
-	w.IC.SetCrashAtSeq(k)
+	if len(addr) > 0 {
+		w.IC.SetCrash(addr[0])
+	} else {
+		w.IC.SetCrashAtSeq(k)
+	}
 	w.Hub.SetOpNorm(2, true)
 	ch, err := w.C.CreateWorkload(w.Ctx, deployOpts(sc.Count, sc.Strategy, nf))
 	if err != nil {
@@ -390,9 +394,12 @@ func TestC14(t *testing.T) {
 		}
 	} else {
 		// corpus: the clean-up at the end of the deployment (marker deletions, WAL commits)
-		for _, back := range []int{1, 2, 3, 4, 5} {
-			p := points[2]
-			runCase(t, r, scenarios[2], p[len(p)-back], map[string]any{"corpus": "cleanup"})
+		for _, a := range []*cw.Addr{
+			{Method: "DeleteProcessing", Target: "*", Ord: 0}, {Method: "DeleteProcessing", Target: "*", Ord: 1},
+			{Method: "Commit", Target: "create-processing", Ord: 0}, {Method: "Commit", Target: "create-processing", Ord: 1},
+			{Method: "Commit", Target: "allocate-workload", Ord: 0},
+		} {
+			runCase(t, r, scenarios[2], -1, map[string]any{"corpus": "cleanup"}, a)
 		}
 		n := r.N(34, 34)
 		for i := 0; i < n; i++ {
